@@ -8,7 +8,7 @@ Inductive route_kind := SendAll | SendFirst | ConsHash | Other.
 
 Record dest := { d_matcher : matcher; d_addr : bytes (* as given: host[:port[:instance]] *) }.
 Record route := { r_kind : route_kind; r_matcher : matcher; r_dests : list dest }.
-Record agg := { a_matcher : matcher; a_dropraw : bool }.
+Record agg := { a_matcher : matcher; a_dropraw : bool; a_outfmt : bytes }.
 
 Record table := {
   t_ll : level_legacy; t_lm : level_m20; t_order : bool;
@@ -34,12 +34,13 @@ Record outcome := {
   o_bad : option (bytes * bad_reason);            (* key under which the line is reported *)
   o_agg_consumed : list nat;                      (* aggregators that take the point (pre-match and regex) *)
   o_dropped_raw : bool;
+  o_name : bytes;                                 (* the rewritten name, once the line got that far *)
   o_routes : list (nat * bytes);                  (* (route index, line handed to Route.Dispatch), in order *)
   o_dests : list (nat * nat * bytes) }.           (* (route index, destination index, line), in order *)
 
 Definition no_outcome : outcome :=
   {| o_invalid := false; o_out_of_order := false; o_blacklisted := false; o_unroutable := false;
-     o_bad := None; o_agg_consumed := []; o_dropped_raw := false; o_routes := []; o_dests := [] |}.
+     o_bad := None; o_agg_consumed := []; o_dropped_raw := false; o_name := []; o_routes := []; o_dests := [] |}.
 
 (* the metric name of a line: the text before the first space *)
 Definition name_of (line : bytes) : bytes := fst (cut 32 line).
@@ -111,32 +112,32 @@ Definition dispatch (t : table) (om : omap) (buf : bytes) (val_ok ts_ok : bool) 
   match validate_packet buf (t_ll t) (t_lm t) val_ok ts_ok with
   | (key, Some e) =>
       (om, {| o_invalid := true; o_out_of_order := false; o_blacklisted := false; o_unroutable := false;
-              o_bad := Some (key, BadInvalid e); o_agg_consumed := []; o_dropped_raw := false;
+              o_bad := Some (key, BadInvalid e); o_agg_consumed := []; o_dropped_raw := false; o_name := [];
               o_routes := []; o_dests := [] |})
   | (key, None) =>
       let '(om', fresh) := if t_order t then ordered om key ts else (om, true) in
       if negb fresh then
         (om', {| o_invalid := false; o_out_of_order := true; o_blacklisted := false; o_unroutable := false;
-                 o_bad := Some (key, BadOutOfOrder); o_agg_consumed := []; o_dropped_raw := false;
+                 o_bad := Some (key, BadOutOfOrder); o_agg_consumed := []; o_dropped_raw := false; o_name := [];
                  o_routes := []; o_dests := [] |})
       else
         match fields buf with
         | [f0; f1; f2] =>
             if existsb (fun m => mmatch m f0) (t_blacklist t) then
               (om', {| o_invalid := false; o_out_of_order := false; o_blacklisted := true; o_unroutable := false;
-                       o_bad := None; o_agg_consumed := []; o_dropped_raw := false; o_routes := []; o_dests := [] |})
+                       o_bad := None; o_agg_consumed := []; o_dropped_raw := false; o_name := []; o_routes := []; o_dests := [] |})
             else
               let name := rewrite_all (t_rewriters t) f0 in
               let '(consumed, dropped) := agg_loop (t_aggs t) 0 name in
               if dropped then
                 (om', {| o_invalid := false; o_out_of_order := false; o_blacklisted := false; o_unroutable := false;
-                         o_bad := None; o_agg_consumed := consumed; o_dropped_raw := true; o_routes := []; o_dests := [] |})
+                         o_bad := None; o_agg_consumed := consumed; o_dropped_raw := true; o_name := name; o_routes := []; o_dests := [] |})
               else
                 let final := name ++ [32] ++ f1 ++ [32] ++ f2 in
                 let '(rts, dsts) := route_loop (t_routes t) 0 name final in
                 (om', {| o_invalid := false; o_out_of_order := false; o_blacklisted := false;
                          o_unroutable := match rts with [] => true | _ => false end;
-                         o_bad := None; o_agg_consumed := consumed; o_dropped_raw := false;
+                         o_bad := None; o_agg_consumed := consumed; o_dropped_raw := false; o_name := name;
                          o_routes := rts; o_dests := dsts |})
         | _ => (om', no_outcome)    (* unreachable: validation guarantees three fields *)
         end
@@ -147,6 +148,6 @@ Definition dispatch_aggregate (routes : list route) (buf : bytes) : outcome :=
   let '(rts, dsts) := route_loop routes 0 (name_of buf) buf in
   {| o_invalid := false; o_out_of_order := false; o_blacklisted := false;
      o_unroutable := match rts with [] => true | _ => false end;
-     o_bad := None; o_agg_consumed := []; o_dropped_raw := false; o_routes := rts; o_dests := dsts |}.
+     o_bad := None; o_agg_consumed := []; o_dropped_raw := false; o_name := name_of buf; o_routes := rts; o_dests := dsts |}.
 
 End WithSearch.
